@@ -3,7 +3,6 @@
 import GeoVerif.Ops.All
 import GeoVerif.Lemmas.C09
 import GeoVerif.Lemmas.C10
-import GeoVerif.Lemmas.C13
 import GeoVerif.Lemmas.C14
 import GeoVerif.Properties.C01
 import GeoVerif.Properties.C02
@@ -15,6 +14,8 @@ import GeoVerif.Properties.C03
 import GeoVerif.Properties.C04
 import GeoVerif.Properties.C11
 import GeoVerif.Properties.C12
+import GeoVerif.Properties.C13
+import GeoVerif.Properties.C14
 import GeoVerif.Properties.C15
 import GeoVerif.Properties.C16
 import GeoVerif.Properties.C17
